@@ -54,12 +54,18 @@ func Run(t *testing.T, r *simcore.Run) {
 		cfg.MaxOffered = maxOfferedThorough
 	}
 	cfg.InitialUtxos = tp.CfgDraw(4)
+	// (new configuration draws are appended here, so that older tapes keep
+	// their meaning: a draw past the end of a recorded tape yields 0)
+	cfg.Restarts = tp.CfgDraw(2) == 1
 	r.Arm = "sweeper/fault-free"
 	if cfg.Faulty {
 		r.Arm = "sweeper/faulty"
 	}
 	if cfg.StartAboveMax {
 		r.Arm += "+start-above-max"
+	}
+	if cfg.Restarts {
+		r.Arm += "+restarts"
 	}
 
 	var saved interface{}
@@ -88,18 +94,32 @@ func Run(t *testing.T, r *simcore.Run) {
 	}
 }
 
+// at most this many restarts per run
+const maxRestarts = 3
+
 type sim struct {
-	r       *simcore.Run
-	w       *World
-	cfg     Config
-	sweeper *sweep.UtxoSweeper
-	started bool
-	blocks  int
+	r        *simcore.Run
+	w        *World
+	cfg      Config
+	sweeper  *sweep.UtxoSweeper
+	started  bool
+	halted   bool
+	blocks   int
+	restarts int
 }
 
 func newSim(r *simcore.Run, cfg Config) *sim {
-	w := newWorld(r, cfg)
-	s := &sim{r: r, w: w, cfg: cfg}
+	s := &sim{r: r, w: newWorld(r, cfg), cfg: cfg}
+	s.build()
+	return s
+}
+
+// build makes a fresh TxPublisher and UtxoSweeper over the world as it is (at
+// the beginning of a run and after every restart). Nothing of lnd is carried
+// over: what survives a restart is what the seams hold (chain, mempool, store,
+// wallet).
+func (s *sim) build() {
+	w, cfg := s.w, s.cfg
 	est := estimator{w}
 	w.pub = sweep.NewTxPublisher(sweep.TxPublisherConfig{
 		Signer:    w.kr.signer,
@@ -114,6 +134,7 @@ func newSim(r *simcore.Run, cfg Config) *sim {
 		FeeEstimator:         est,
 		Wallet:               wallet{w},
 		Notifier:             notifier{w},
+		Mempool:              mempool{w},
 		Store:                store{w},
 		Signer:               w.kr.signer,
 		MaxInputsPerTx:       cfg.MaxInputs,
@@ -122,21 +143,40 @@ func newSim(r *simcore.Run, cfg Config) *sim {
 		Publisher:            bumper{w},
 		NoDeadlineConfTarget: cfg.NoDeadlineCT,
 	})
-	return s
+}
+
+// boot starts the sweeper and the publisher at the current height.
+func (s *sim) boot() {
+	if err := s.sweeper.Start(s.beat()); err != nil {
+		s.r.Harness("sweeper start: %v", err)
+	}
+	if err := s.w.pub.Start(s.beat()); err != nil {
+		s.r.Harness("publisher start: %v", err)
+	}
+	s.started = true
+	synctest.Wait()
+}
+
+// halt stops the sweeper, the publisher and the forwarders of the bump-request
+// tap.
+func (s *sim) halt() {
+	if s.started {
+		_ = s.sweeper.Stop()
+		_ = s.w.pub.Stop()
+		s.started = false
+	}
+	if !s.halted {
+		s.halted = true
+		close(s.w.done)
+		s.w.fwd.Wait()
+	}
 }
 
 func (s *sim) beat() chainio.Blockbeat {
 	return chainio.NewBeat(chainntnfs.BlockEpoch{Height: s.w.height})
 }
 
-func (s *sim) shutdown() {
-	if s.started {
-		_ = s.sweeper.Stop()
-		_ = s.w.pub.Stop()
-	}
-	close(s.w.done)
-	s.w.fwd.Wait()
-}
+func (s *sim) shutdown() { s.halt() }
 
 // after runs at quiescence after every stimulus.
 func (s *sim) after() {
@@ -193,15 +233,7 @@ func (s *sim) liveRequests() []*simReq {
 func (s *sim) run() {
 	r, w, cfg := s.r, s.w, s.cfg
 	dlog(r, "config %+v", cfg)
-	must := func(err error, what string) {
-		if err != nil {
-			r.Harness("%s: %v", what, err)
-		}
-	}
-	must(s.sweeper.Start(s.beat()), "sweeper start")
-	must(w.pub.Start(s.beat()), "publisher start")
-	s.started = true
-	synctest.Wait()
+	s.boot()
 	for i := 0; i < cfg.InitialUtxos; i++ {
 		val := []int64{60_000, 2_500_000, 9_000}[i%3] + int64(i)
 		u := &simUtxo{idx: i, op: simOutPoint("utxo", i), value: val}
@@ -226,6 +258,10 @@ func (s *sim) run() {
 		}
 		if len(s.liveRequests()) > 0 {
 			en = append(en, choice{"toward-deadline", 2})
+		}
+		// (appended last: runs without restarts choose as they always did)
+		if cfg.Restarts && s.restarts < maxRestarts && len(w.inputs) > 0 {
+			en = append(en, choice{"restart", 2})
 		}
 		total := 0
 		for _, c := range en {
@@ -257,6 +293,8 @@ func (s *sim) run() {
 			s.block(d, true)
 		case "toward-deadline":
 			s.towardDeadline()
+		case "restart":
+			s.restart()
 		}
 		r.State(fmt.Sprintf("live=%d offered=%d pool=%d utxo=%d", len(s.liveRequests()), len(w.inputs),
 			len(w.mempool), len(w.utxos)))
@@ -429,11 +467,58 @@ func (s *sim) offer() {
 	}
 	dlog(r, "offer %s kind=%v value=%d budget=%d deadline=%s start=%d immediate=%v hint=%d csv=%d cltv=%d h=%d",
 		in.label(), kind, value, budget, dl, in.start, in.immediate, hint, csv, cltv, h)
+	in.params = params
 	ch, err := s.sweeper.SweepInput(inp, params)
 	if err != nil {
 		r.Harness("SweepInput: %v", err)
 	}
 	in.result = ch
+	s.after()
+}
+
+// restart stops the sweeper and the publisher at a quiescent point and brings
+// up fresh ones over the same outside world. lnd persists nothing about a
+// pending sweep but the TxRecord of each published transaction; the contract
+// resolvers offer their inputs again with the parameters they used before
+// (one at a time, in a fixed order, each handled to quiescence - an input
+// offered with Immediate sweeps whatever has been offered up to then).
+func (s *sim) restart() {
+	r, w := s.r, s.w
+	r.Kind("restart")
+	s.restarts++
+	r.Count("fault_restart")
+	dlog(r, "restart at height %d (pool=%d store=%d)", w.height, len(w.mempool), len(w.store))
+	s.halt()
+	synctest.Wait()
+
+	w.mu.Lock()
+	w.done = make(chan struct{})
+	s.halted = false
+	w.onRestart()
+	w.mu.Unlock()
+	w.flush()
+
+	s.build()
+	s.boot()
+	for _, in := range w.inputs {
+		if in.final != "" {
+			continue
+		}
+		w.mu.Lock()
+		note := w.noteReoffer(in)
+		w.mu.Unlock()
+		dlog(r, "offer %s again: %s", in.label(), note)
+		r.Count("restart_inputs_offered_again")
+		// (nothing of the run may be touched between SweepInput and
+		// quiescence: lnd's goroutines are at work)
+		ch, err := s.sweeper.SweepInput(in.inp, in.params)
+		synctest.Wait()
+		if err != nil {
+			r.Harness("SweepInput after restart: %v", err)
+		}
+		in.result = ch
+		w.flush()
+	}
 	s.after()
 }
 
@@ -492,6 +577,21 @@ func (s *sim) chainEvent() {
 				cands = append(cands, q)
 			}
 		}
+		// a sweep published before a restart and still in the mempool can
+		// confirm as well (the request it came from is gone)
+		for _, q := range w.reqs {
+			if n := len(q.published); q.termEvent == "restart" && n > 0 {
+				if _, ok := w.mempool[q.published[n-1].hash]; ok {
+					cands = append(cands, q)
+				}
+			}
+		}
+		sort.SliceStable(cands, func(i, j int) bool {
+			if cands[i].minIdx != cands[j].minIdx {
+				return cands[i].minIdx < cands[j].minIdx
+			}
+			return cands[i].gen < cands[j].gen
+		})
 		if len(cands) == 0 {
 			return
 		}
@@ -511,6 +611,9 @@ func (s *sim) chainEvent() {
 		}
 		w.markSpentLocked(p.tx)
 		w.mu.Unlock()
+		if q.termEvent == "restart" {
+			r.Count("probe_confirm_pre_restart_sweep")
+		}
 		if v == len(q.published)-1 {
 			r.Count("confirm_latest_version")
 		} else {
